@@ -277,6 +277,58 @@ def r5(ctx):
         raise AnalysisBroken('C20.R5: only %d lock users found' % n)
 
 
+def r6(ctx):
+    ctx.rule('C20.R6', 'ebusd catches no exception, so a throwing accessor ends the daemon: every std::string/vector at(k) '
+             'with a constant index in the input-processing sources is reached only after a test that the container holds '
+             'more than k elements (!empty(), length()/size() > k) with no shrinking call on it in between', minimum=2)
+    fb = ctx.fb
+    n = 0
+    catches = sum(len(f.all('CXXCatchStmt')) for f in fb.functions if f.relfile.startswith('src/') and f.blocks)
+    for fn in fb.functions:
+        if not in_scope(fn) or not fn.blocks:
+            continue
+        for c in fn.all('CXXMemberCallExpr'):
+            v = fn.nodes[c]
+            cal = v.get('callee') or ''
+            if not cal.startswith('std::') or cal.split('::')[-1] != 'at' or len(v.get('args', [])) != 1 or 'obj' not in v:
+                continue
+            k = fn.val(v['args'][0])
+            obj = fn.key(v['obj'])
+            n += 1
+            if k is None:
+                ctx.ob('C20.R6', fn, c, False, '%s.at(%s)' % (obj, fn.key(v['args'][0])), 'index is not a constant', status='unclassified')
+                continue
+            o = obj[1:] if obj.startswith('*') else obj
+            alts = []
+            for nm in (obj, o, '(*%s)' % o):
+                alts += [('%s.empty()' % nm, False)]
+                for m in ('length', 'size'):
+                    alts += [('(%s.%s() == #0)' % (nm, m), False)] if k == 0 else []
+                    alts += [('(%s.%s() < #%d)' % (nm, m, k + 1), False), ('(%s.%s() <= #%d)' % (nm, m, k), False)]
+            ok = fn.needs_one_of(c, alts)
+            if ok:
+                # the size test must still hold at the access: no call that can shrink the container in between
+                cut = []
+                for kk, pp in alts:
+                    cut += fn.edges_with_atom(kk, pp)
+                for m in fn.all('CXXMemberCallExpr', 'CXXOperatorCallExpr'):
+                    mv = fn.nodes[m]
+                    base = (mv.get('callee') or '').split('::')[-1]
+                    tgt = fn.key(mv['obj']) if 'obj' in mv else (fn.key(mv['args'][0]) if mv.get('args') else '')
+                    if tgt in (obj, o, '*' + o) and base in ('erase', 'clear', 'resize', 'assign', 'pop_back', 'operator=', 'swap'):
+                        p0 = fn.pos(m)
+                        if p0 is not None and fn.reaches_point(p0[0], fn.pos(c), set(), start_idx=p0[1] + 1, cut_edges=cut):
+                            ok = False
+            if not ok and 'this.m_messagesByName[' in obj:
+                ctx.ob('C20.R6', fn, c, False, '%s.at(%d)' % (obj, k), 'relies on the invariant that the name index holds no '
+                       'empty list (not decided here)', status='unclassified')
+                continue
+            ctx.ob('C20.R6', fn, c, ok, '%s.at(%d)' % (obj, k), 'guarded by a size test on every path: %s' % ok)
+    ctx.note('C20.R6: %d catch handler(s) in the repository sources' % catches)
+    if n < 2:
+        raise AnalysisBroken('C20.R6: only %d at() calls found' % n)
+
+
 def r7(ctx):
     ctx.rule('C20.R7', 'the name index of the message map uses one key schema: add(), remove() and find() derive the direction '
              'suffix of a name key with the same decision order (passive -> "P", else write -> "W", else "R"); a disagreement '
@@ -316,4 +368,5 @@ def run(ctx):
     r3(ctx)
     r4(ctx)
     r5(ctx)
+    r6(ctx)
     r7(ctx)
